@@ -709,3 +709,385 @@ class World(object):
         if any(x.t == EL and x.local is not None and self.default_attrs(doc, x.name) for x in (subtree(n) if deep else [n])):
             unspec = 'import of a namespace-aware element whose type has DTD default attributes in the target document'
         return Res.ok(self._clone(n, deep or n.t == AT, doc, importing=True), unspec)
+
+
+# =========================================================================================================
+# Second half: live views (C14) -- DOM Level 2 Traversal and Range
+# =========================================================================================================
+SHOW_ALL = 0xFFFF
+FILTER_ACCEPT, FILTER_REJECT, FILTER_SKIP = 1, 2, 3
+
+def index_of(n):
+    return n.parent.children.index(n)
+
+def is_ancestor_or_self(a, n):
+    while n is not None:
+        if n is a: return True
+        n = n.parent
+    return False
+
+def compare_points(an, ao, bn, bo):
+    """document order of two boundary points of the same root container: -1 / 0 / 1 (DOM2 Range 2.5)"""
+    if an is bn: return (ao > bo) - (ao < bo)
+    # is bn inside a child of an?
+    c = bn
+    while c is not None and c.parent is not an: c = c.parent
+    if c is not None:
+        return -1 if ao <= index_of(c) else 1
+    c = an
+    while c is not None and c.parent is not bn: c = c.parent
+    if c is not None:
+        return -1 if index_of(c) < bo else 1
+    # different branches: compare the children of the common ancestor
+    aa = list(ancestors_or_self(an)); ba = list(ancestors_or_self(bn))
+    sa = set(id(x) for x in aa)
+    common = next(x for x in ba if id(x) in sa)
+    ca = aa[aa.index(common) - 1]; cb = ba[ba.index(common) - 1]
+    return -1 if index_of(ca) < index_of(cb) else 1
+
+class NameFilter(object):
+    """total function nodeName -> ACCEPT/REJECT/SKIP (the harness builds the same function from the same spec string)"""
+    def __init__(self, default, table): self.default = default; self.table = dict(table)
+    def spec(self): return ';'.join([str(self.default)] + ['%s=%d' % (esc(k), v) for k, v in sorted(self.table.items())])
+    def __call__(self, n): return self.table.get(node_name(n), self.default)
+
+def node_name(n):
+    return {TX: '#text', CD: '#cdata-section', CM: '#comment', DOC: '#document', FR: '#document-fragment'}.get(n.t, n.name)
+
+class View(object):
+    kind = '?'
+    def __init__(self, w, doc): self.w = w; self.doc = doc; self.id = len(w.views); w.views.append(self); self.touched = False
+    def pre_remove(self, child): pass
+    def post_insert(self, child): pass
+    def text_changed(self, n, kind, offset, count, ins): pass
+    def text_split(self, old, new, off): pass
+
+class TagList(View):
+    kind = 'L'
+    def __init__(self, w, root, ns_aware, ns, name):
+        View.__init__(self, w, doc_of(root)); self.root = root; self.ns_aware = ns_aware; self.ns = ns; self.name = name
+    def items(self):
+        out = []
+        for x in subtree(self.root):
+            if x is self.root or x.t != EL: continue
+            if not self.ns_aware:
+                if self.name == '*' or x.name == self.name: out.append(x)
+            else:
+                if self.ns != '*' and x.ns != self.ns: continue
+                if self.name == '*' or (x.local is not None and x.local == self.name): out.append(x)
+        return out
+    def state(self):
+        it = self.items()
+        return 'L\t%d%s' % (len(it), ''.join('\t%d' % x.id for x in it))
+
+class NodeIter(View):
+    """DOM2 Traversal 1.1: a position between two nodes of the flattened list, kept as (reference node, before/after)"""
+    kind = 'I'
+    def __init__(self, w, doc, root, show, flt, expand):
+        View.__init__(self, w, doc); self.root = root; self.show = show; self.flt = flt; self.expand = expand
+        self.ref = root; self.before = True; self.detached = False; self.stepped = False
+        w.listeners.append(self)
+    def accept(self, n):
+        if not (self.show >> (n.t - 1)) & 1: return False
+        return self.flt is None or self.flt(n) == FILTER_ACCEPT
+    def kids(self, n):
+        if n.t == ER and not self.expand: return []
+        return n.children
+    def nxt(self, n, descend=True):
+        if descend and self.kids(n): return self.kids(n)[0]
+        while n is not None and n is not self.root:
+            p = n.parent
+            if p is None: return None
+            i = p.children.index(n)
+            if i + 1 < len(p.children): return p.children[i + 1]
+            n = p
+        return None
+    def prv(self, n):
+        if n is self.root: return None
+        p = n.parent
+        if p is None: return None
+        i = p.children.index(n)
+        if i == 0: return p
+        x = p.children[i - 1]
+        while self.kids(x): x = self.kids(x)[-1]
+        return x
+    def nextNode(self):
+        if self.detached: return Res.err({INVALID_STATE})
+        n = self.ref; before = self.before
+        while True:
+            cand = n if before else self.nxt(n)
+            before = False
+            if cand is None: return Res.ok(None)
+            n = cand
+            if self.accept(n):
+                self.ref = n; self.before = False; self.stepped = True
+                return Res.ok(n)
+    def previousNode(self):
+        if self.detached: return Res.err({INVALID_STATE})
+        n = self.ref; before = self.before
+        while True:
+            cand = n if not before else self.prv(n)
+            before = True
+            if cand is None: return Res.ok(None)
+            n = cand
+            if self.accept(n):
+                self.ref = n; self.before = True
+                return Res.ok(n)
+    def detach(self):
+        self.detached = True
+        if self in self.w.listeners: self.w.listeners.remove(self)
+        return Res.ok()
+    def pre_remove(self, child):
+        """1.1.1.4: only the removal of the reference node (or of an ancestor of it below the root) matters"""
+        if child is self.root or not is_ancestor_or_self(child, self.ref): return
+        if not is_ancestor_or_self(self.root, child): return
+        # is child on the path ref -> root (strictly below root)?
+        self.touched = True
+        if not self.before:         # reference node precedes the position: nearest node before the removed subtree
+            self.ref = self.prv(child)
+        else:                       # reference node follows the position: nearest node after the removed subtree, if any
+            n = self.nxt(child, descend=False)
+            if n is not None: self.ref = n
+            else: self.ref = self.prv(child); self.before = False
+    def state(self): return 'I\t.'
+
+class Walker(View):
+    """DOM2 Traversal 1.2 TreeWalker (logical view: whatToShow + filter; REJECT hides the subtree, SKIP only the node)"""
+    kind = 'W'
+    def __init__(self, w, doc, root, show, flt, expand):
+        View.__init__(self, w, doc); self.root = root; self.show = show; self.flt = flt; self.expand = expand; self.cur = root
+    def f(self, n):
+        if not (self.show >> (n.t - 1)) & 1: return FILTER_SKIP
+        return FILTER_ACCEPT if self.flt is None else self.flt(n)
+    def kids(self, n):
+        if n.t == ER and not self.expand: return []
+        return n.children
+    def state(self): return 'W\t%d' % self.cur.id
+    def parentNode(self):
+        n = self.cur
+        while n is not None and n is not self.root:
+            n = n.parent
+            if n is not None and self.f(n) == FILTER_ACCEPT:
+                self.cur = n; return Res.ok(n)
+        return Res.ok(None)
+    def _children(self, first):
+        n = self.cur
+        ks = self.kids(n)
+        node = (ks[0] if first else ks[-1]) if ks else None
+        while node is not None:
+            r = self.f(node)
+            if r == FILTER_ACCEPT:
+                self.cur = node; return Res.ok(node)
+            if r == FILTER_SKIP:
+                ks = self.kids(node)
+                if ks:
+                    node = ks[0] if first else ks[-1]; continue
+            while node is not None:
+                p = node.parent; i = p.children.index(node)
+                sib = (p.children[i + 1] if i + 1 < len(p.children) else None) if first else (p.children[i - 1] if i > 0 else None)
+                if sib is not None:
+                    node = sib; break
+                if p is None or p is self.root or p is self.cur: return Res.ok(None)
+                node = p
+        return Res.ok(None)
+    def firstChild(self): return self._children(True)
+    def lastChild(self): return self._children(False)
+    def _siblings(self, nxt):
+        node = self.cur
+        if node is self.root: return Res.ok(None)
+        while True:
+            p = node.parent
+            if p is None: return Res.ok(None)
+            i = p.children.index(node)
+            sib = (p.children[i + 1] if i + 1 < len(p.children) else None) if nxt else (p.children[i - 1] if i > 0 else None)
+            while sib is not None:
+                node = sib
+                r = self.f(node)
+                if r == FILTER_ACCEPT:
+                    self.cur = node; return Res.ok(node)
+                ks = self.kids(node)
+                sib = (ks[0] if nxt else ks[-1]) if ks else None
+                if r == FILTER_REJECT or sib is None:
+                    pp = node.parent; j = pp.children.index(node)
+                    sib = (pp.children[j + 1] if j + 1 < len(pp.children) else None) if nxt else (pp.children[j - 1] if j > 0 else None)
+            node = node.parent
+            if node is None or node is self.root: return Res.ok(None)
+            if self.f(node) == FILTER_ACCEPT: return Res.ok(None)
+    def nextSibling(self): return self._siblings(True)
+    def previousSibling(self): return self._siblings(False)
+    def previousNode(self):
+        node = self.cur
+        while node is not self.root:
+            p = node.parent
+            if p is None: return Res.ok(None)
+            i = p.children.index(node)
+            sib = p.children[i - 1] if i > 0 else None
+            while sib is not None:
+                node = sib
+                r = self.f(node)
+                while r != FILTER_REJECT and self.kids(node):
+                    node = self.kids(node)[-1]; r = self.f(node)
+                if r == FILTER_ACCEPT:
+                    self.cur = node; return Res.ok(node)
+                pp = node.parent; j = pp.children.index(node)
+                sib = pp.children[j - 1] if j > 0 else None
+            if node is self.root or node.parent is None: return Res.ok(None)
+            node = node.parent
+            if self.f(node) == FILTER_ACCEPT:
+                self.cur = node; return Res.ok(node)
+        return Res.ok(None)
+    def nextNode(self):
+        node = self.cur; r = FILTER_ACCEPT
+        while True:
+            while r != FILTER_REJECT and self.kids(node):
+                node = self.kids(node)[0]; r = self.f(node)
+                if r == FILTER_ACCEPT:
+                    self.cur = node; return Res.ok(node)
+            sib = None; t = node
+            while t is not None:
+                if t is self.root: return Res.ok(None)
+                p = t.parent
+                if p is None: return Res.ok(None)
+                i = p.children.index(t)
+                if i + 1 < len(p.children): sib = p.children[i + 1]; break
+                t = p
+            if sib is None: return Res.ok(None)
+            node = sib; r = self.f(node)
+            if r == FILTER_ACCEPT:
+                self.cur = node; return Res.ok(node)
+    def setCurrentNode(self, n):
+        if n is None: return Res.err({NOT_SUPPORTED})
+        self.cur = n; return Res.ok()
+
+class Range(View):
+    """DOM2 Range: two boundary points + the fix-up rules of section 2.12"""
+    kind = 'R'
+    def __init__(self, w, doc):
+        View.__init__(self, w, doc); self.sc = doc; self.so = 0; self.ec = doc; self.eo = 0; self.detached = False
+        w.listeners.append(self)
+    # -- helpers
+    def _bad_type(self, n):
+        return any(x.t in (ENT, NOT, DT) for x in ancestors_or_self(n))
+    def _root_ok(self, n): return root_of(n).t in (DOC, FR, AT)
+    def _set(self, which, n, off):
+        if which == 's':
+            self.sc, self.so = n, off
+            if root_of(self.sc) is not root_of(self.ec) or compare_points(self.sc, self.so, self.ec, self.eo) > 0: self.ec, self.eo = n, off
+        else:
+            self.ec, self.eo = n, off
+            if root_of(self.sc) is not root_of(self.ec) or compare_points(self.sc, self.so, self.ec, self.eo) > 0: self.sc, self.so = n, off
+    def state(self):
+        if self.detached: return 'R\texc:11'
+        a = list(ancestors_or_self(self.sc)); sa = set(id(x) for x in a)
+        cac = next((x for x in ancestors_or_self(self.ec) if id(x) in sa), None)
+        return 'R\t%d\t%d\t%d\t%d\t%d\t%s' % (self.sc.id, self.so, self.ec.id, self.eo, 1 if (self.sc is self.ec and self.so == self.eo) else 0, '-' if cac is None else str(cac.id))
+    # -- setters
+    def setPoint(self, which, n, off):
+        codes = set()
+        if self.detached: return Res.err({INVALID_STATE})
+        if self._bad_type(n): codes.add(INVALID_NODE_TYPE)
+        if off > clen(n): codes.add(INDEX_SIZE)
+        if codes: return Res.err(codes)
+        self._set(which, n, off); return Res.ok()
+    def setRel(self, which, after, n):
+        """setStartBefore / setStartAfter / setEndBefore / setEndAfter"""
+        if self.detached: return Res.err({INVALID_STATE})
+        if not self._root_ok(n) or n.t in (DOC, FR, AT, ENT, NOT): return Res.err({INVALID_NODE_TYPE})
+        self._set(which, n.parent, index_of(n) + (1 if after else 0)); return Res.ok()
+    def collapse(self, to_start):
+        if self.detached: return Res.err({INVALID_STATE})
+        if to_start: self.ec, self.eo = self.sc, self.so
+        else: self.sc, self.so = self.ec, self.eo
+        return Res.ok()
+    def selectNode(self, n):
+        if self.detached: return Res.err({INVALID_STATE})
+        if n.t in (DOC, FR, AT, ENT, NOT) or (n.parent is not None and self._bad_type(n.parent)): return Res.err({INVALID_NODE_TYPE})
+        if n.parent is None: return None          # not generated: a parentless node has no (parent, index) position
+        if n.t == DT:
+            # the specification only forbids DocumentType *ancestors*; Xerces also refuses the doctype itself
+            return Res.err({INVALID_NODE_TYPE}, 'selectNode(DocumentType)')
+        self.sc, self.so = n.parent, index_of(n); self.ec, self.eo = n.parent, index_of(n) + 1
+        return Res.ok()
+    def selectNodeContents(self, n):
+        if self.detached: return Res.err({INVALID_STATE})
+        if self._bad_type(n): return Res.err({INVALID_NODE_TYPE})
+        self.sc, self.so = n, 0; self.ec, self.eo = n, clen(n)
+        return Res.ok()
+    def compareBoundaryPoints(self, how, other):
+        if self.detached or other.detached: return Res.err({INVALID_STATE})
+        if how not in (0, 1, 2, 3): return None
+        # START_TO_START 0, START_TO_END 1, END_TO_END 2, END_TO_START 3 : "<A>_TO_<B>" compares A of the source with B of this
+        mine = (self.sc, self.so) if how in (0, 3) else (self.ec, self.eo)
+        src = (other.sc, other.so) if how in (0, 1) else (other.ec, other.eo)
+        unspec = None
+        if root_of(mine[0]) is not root_of(src[0]):
+            return Res.err({WRONG_DOC}, 'compareBoundaryPoints of ranges in different root containers')
+        return Res.ok(('i', compare_points(mine[0], mine[1], src[0], src[1])), unspec)
+    def cloneRange(self):
+        if self.detached: return Res.err({INVALID_STATE})
+        r = Range(self.w, self.doc); r.sc, r.so, r.ec, r.eo = self.sc, self.so, self.ec, self.eo
+        return Res.ok(('v', r.id))
+    def detach(self):
+        if self.detached: return Res.err({INVALID_STATE})
+        self.detached = True
+        if self in self.w.listeners: self.w.listeners.remove(self)
+        return Res.ok()
+    def toString(self):
+        if self.detached: return Res.err({INVALID_STATE})
+        out = []
+        if self.sc is self.ec and self.sc.t in (TX, CD):
+            return Res.ok(('s', self.sc.value[self.so:self.eo]))
+        root = root_of(self.sc)
+        for n in subtree(root):
+            if n.t not in (TX, CD): continue
+            # part of n inside the range
+            lo = 0; hi = len(n.value)
+            if compare_points(n, hi, self.sc, self.so) <= 0 and not n is self.sc: continue
+            if compare_points(n, 0, self.ec, self.eo) >= 0 and not n is self.ec: continue
+            if n is self.sc: lo = self.so
+            if n is self.ec: hi = self.eo
+            if lo < hi: out.append(n.value[lo:hi])
+        return Res.ok(('s', ''.join(out)))
+    def touches_types(self, types):
+        """does the range contain (wholly or partly) data of a node of one of the types?"""
+        if self.sc.t in types or self.ec.t in types: return not (self.sc is self.ec and self.so == self.eo)
+        for n in subtree(root_of(self.sc)):
+            if n.t not in types or n.parent is None: continue
+            i = index_of(n)
+            if compare_points(n.parent, i + 1, self.sc, self.so) > 0 and compare_points(n.parent, i, self.ec, self.eo) < 0: return True
+        return False
+    # -- fix-ups (2.12)
+    def pre_remove(self, child):
+        p = child.parent; i = index_of(child)
+        for which in ('s', 'e'):
+            c, o = (self.sc, self.so) if which == 's' else (self.ec, self.eo)
+            if is_ancestor_or_self(child, c): c, o = p, i; self.touched = True
+            elif c is p and o > i: o -= 1; self.touched = True
+            if which == 's': self.sc, self.so = c, o
+            else: self.ec, self.eo = c, o
+    def post_insert(self, child):
+        p = child.parent; i = index_of(child)
+        if self.sc is p and i < self.so: self.so += 1; self.touched = True
+        if self.ec is p and i < self.eo: self.eo += 1; self.touched = True
+    def text_changed(self, n, kind, offset, count, ins):
+        for which in ('s', 'e'):
+            c, o = (self.sc, self.so) if which == 's' else (self.ec, self.eo)
+            if c is not n: continue
+            self.touched = True
+            if kind == 'ins':
+                if offset < o: o += ins
+            elif kind == 'del':
+                if o > offset + count: o -= count
+                elif o > offset: o = offset
+            elif kind == 'set': o = 0
+            if which == 's': self.so = o
+            else: self.eo = o
+    def text_split(self, old, new, off):
+        # the new node has already been inserted after `old` (ordinary insertion fix-up for (parent, index) points)
+        if old.parent is not None: self.post_insert(new)
+        if self.sc is old and self.so > off: self.sc, self.so = new, self.so - off; self.touched = True
+        if self.ec is old and self.eo > off: self.ec, self.eo = new, self.eo - off; self.touched = True
+
+def _view_state(self):
+    return ''.join('V\t%d\t%s\n' % (v.id, v.state()) for v in self.views)
+World.view_state = _view_state
